@@ -309,12 +309,24 @@ def get_second_argument_name(arguments: ast.arguments) -> str:
     return get_nth_argument_name(arguments, 1)
 
 
+def get_annotation_name(decorator: ast.expr) -> str | None:
+    """Return the name of the decorator, or `None` if it is not a (called) name.
+
+    A decorator may be any expression (`@registry["key"]`, `@a | b`, `@(lambda f: f)`),
+    such a decorator can't be a rattr annotation.
+    """
+    try:
+        return get_attrname(decorator)
+    except TypeError:
+        return None
+
+
 def has_annotation(
     name: str,
     target: ast.FunctionDef | ast.AsyncFunctionDef | ast.ClassDef,
 ) -> bool:
     """Return `True` if the function is decorated with the given annotation."""
-    return name in map(get_attrname, target.decorator_list)
+    return name in map(get_annotation_name, target.decorator_list)
 
 
 def get_annotation(
@@ -325,7 +337,7 @@ def get_annotation(
     matching: list[ast.expr] = []
 
     for decorator in target.decorator_list:
-        suffix = get_attrname(decorator)
+        suffix = get_annotation_name(decorator)
 
         if suffix != name:
             continue
